@@ -380,6 +380,32 @@ ErrorCode Reference::to_gds(FILE* out, double scaling) const {
     uint16_t buffer_single[] = {12, 0x1003};
     big_endian_swap16(buffer_single, COUNT(buffer_single));
 
+    if ((repetition.type == RepetitionType::Rectangular ||
+         repetition.type == RepetitionType::Regular) &&
+        (repetition.columns > INT16_MAX || repetition.rows > INT16_MAX) &&
+        repetition.columns <= UINT16_MAX && repetition.rows <= UINT16_MAX) {
+        // COLROW holds signed 16-bit counts: a larger array is written in blocks
+        Vec2 v1 = repetition.v1;
+        Vec2 v2 = repetition.v2;
+        if (repetition.type == RepetitionType::Rectangular) {
+            v1 = Vec2{repetition.spacing.x, 0};
+            v2 = Vec2{0, repetition.spacing.y};
+        }
+        Reference block = *this;
+        for (uint64_t c0 = 0; c0 < repetition.columns; c0 += INT16_MAX) {
+            for (uint64_t r0 = 0; r0 < repetition.rows; r0 += INT16_MAX) {
+                block.repetition.columns = repetition.columns - c0;
+                if (block.repetition.columns > INT16_MAX) block.repetition.columns = INT16_MAX;
+                block.repetition.rows = repetition.rows - r0;
+                if (block.repetition.rows > INT16_MAX) block.repetition.rows = INT16_MAX;
+                block.origin = origin + (double)c0 * v1 + (double)r0 * v2;
+                ErrorCode err = block.to_gds(out, scaling);
+                if (err != ErrorCode::NoError) error_code = err;
+            }
+        }
+        return error_code;
+    }
+
     uint64_t columns = repetition.columns;
     uint64_t rows = repetition.rows;
     if (repetition.type != RepetitionType::None) {
